@@ -13,6 +13,46 @@ from .ctx import Ctx, PathAbort, explore_sub
 from . import types as T
 
 
+def _const_ids(t, _cache={}):
+    """ids of the uninterpreted constants occurring in a z3 term"""
+    key = t.get_id()
+    if key in _cache:
+        return _cache[key]
+    out = set()
+    seen = set()
+    stack = [t]
+    while stack:
+        e = stack.pop()
+        i = e.get_id()
+        if i in seen:
+            continue
+        seen.add(i)
+        if z3.is_quantifier(e):
+            stack.append(e.body())
+            continue
+        if z3.is_const(e) and e.decl().kind() == z3.Z3_OP_UNINTERPRETED:
+            out.add(i)
+        stack.extend(e.children())
+    if len(_cache) < 20000:
+        _cache[key] = out
+    return out
+
+
+def _value_const_ids(v):
+    out = set()
+    if isinstance(v, (VBool, VInt, VReal, VStr)):
+        return _const_ids(v.term)
+    if isinstance(v, VTuple):
+        for x in v.items:
+            out |= _value_const_ids(x)
+    if isinstance(v, VObj) and v.term is not None:
+        out |= _const_ids(v.term)
+    if isinstance(v, VList) and isinstance(v.content, ConcreteSeq):
+        for x in v.content.items:
+            out |= _value_const_ids(x)
+    return out
+
+
 class PyRaise(Exception):
     def __init__(self, exc, msg="", line=None):
         super().__init__(exc, msg, line)
@@ -383,7 +423,17 @@ class Interp:
 
     def ev_BoolOp(self, node, env):
         if self.spec_mode:
-            ts = [self.as_bool_term(self.ev(v, env), node) for v in node.values]
+            ts = []
+            pushed = 0
+            try:
+                for v in node.values:
+                    t = self.as_bool_term(self.ev(v, env), node)
+                    ts.append(t)
+                    self.ctx.spec_hyps.append(t if isinstance(node.op, ast.And) else z3.Not(t))
+                    pushed += 1
+            finally:
+                for _ in range(pushed):
+                    self.ctx.spec_hyps.pop()
             return VBool(z3.And(*ts) if isinstance(node.op, ast.And) else z3.Or(*ts))
         v = None
         for sub in node.values:
@@ -637,6 +687,9 @@ class Interp:
             return self.seq_eq(a, b, node)
         if isinstance(a, VSet) and isinstance(b, VSet):
             return self.specfuns.set_eq(self, a, b)
+        r = self.externs._run("eq", self, a, b, node)
+        if r is not None:
+            return r
         # different kinds: scalars vs others are simply unequal in Python
         scal = (VInt, VReal, VBool, VStr, VType, VFunc, VTuple)
         if isinstance(a, scal) and isinstance(b, scal):
@@ -748,6 +801,8 @@ class Interp:
             raise PyRaise("TypeError", "'in <string>' requires string", getattr(node, "lineno", None))
         if isinstance(container, VTuple):
             return z3.Or(*[self.veq(x, item, node) for x in container.items]) if container.items else z3.BoolVal(False)
+        if isinstance(container, (VDict, VSet)):
+            self.externs.hashcheck(self, item, node)
         if isinstance(container, VDict):
             if container.items is not None:
                 return z3.Or(*[self.veq(k, item, node) for k, _ in container.items]) if container.items else z3.BoolVal(False)
@@ -801,12 +856,16 @@ class Interp:
         """Python index normalisation with bounds check; returns z3 Int in [0,n)."""
         i = to_int(idx)
         if self.spec_mode:
+            if self.ctx.known(i >= 0):
+                return i
             return z3.If(i < 0, i + n, i)
         if not self.ctx.decide(z3.And(i >= -n, i < n), getattr(node, "lineno", "")):
             raise PyRaise(what, "index out of range", getattr(node, "lineno", None))
         ci = concrete_int(idx)
         if ci is not None:
             return z3.IntVal(ci) if ci >= 0 else n + ci
+        if self.ctx.known(i >= 0):
+            return i
         return z3.If(i < 0, i + n, i)
 
     def index(self, base, idx, node=None):
@@ -869,7 +928,8 @@ class Interp:
             n = z3.Length(base.term)
             a = self.clip(lo, n, 0)
             b = self.clip(hi, n, None)
-            return VStr(z3.SubString(base.term, a, z3.If(b - a > 0, b - a, 0)), base.np)
+            ln = b - a if self.ctx.known(b - a >= 0) else z3.If(b - a > 0, b - a, 0)
+            return VStr(z3.SubString(base.term, a, z3.simplify(ln)), base.np)
         if isinstance(base, VTuple) and step == 1:
             a = concrete_int(lo) if lo is not None and not isinstance(lo, VNone) else None
             b = concrete_int(hi) if hi is not None and not isinstance(hi, VNone) else None
@@ -895,6 +955,8 @@ class Interp:
         if v is None or isinstance(v, VNone):
             return z3.IntVal(0) if default_lo == 0 else n
         i = to_int(v)
+        if self.ctx.known(z3.And(i >= 0, i <= n)):
+            return i
         i = z3.If(i < 0, i + n, i)
         return z3.If(i < 0, 0, z3.If(i > n, n, i))
 
@@ -1024,6 +1086,14 @@ class Interp:
 
     # calls ------------------------------------------------------------------
     def ev_Call(self, node, env):
+        if self.spec_mode and isinstance(node.func, ast.Name) and node.func.id == "implies" and len(node.args) == 2:
+            a = self.as_bool_term(self.ev(node.args[0], env), node)
+            self.ctx.spec_hyps.append(a)
+            try:
+                b = self.as_bool_term(self.ev(node.args[1], env), node)
+            finally:
+                self.ctx.spec_hyps.pop()
+            return VBool(z3.Implies(a, b))
         fv = self.ev(node.func, env)
         args, kwargs = [], {}
         for a in node.args:
@@ -1458,9 +1528,24 @@ class Interp:
         for fr in frames:
             bvars.extend(fr["bvars"])
         start = frames[0]["pc_mark"]
-        cond = z3.And(*[t for t, _ in self.ctx.pc[start:]]) if len(self.ctx.pc) > start else z3.BoolVal(True)
+        conj = [t for t, _ in self.ctx.pc[start:]]
+        bids = {v.get_id() for v in bvars}
+        fresh = [c for c in frames[0].get("fresh", []) if c.get_id() not in bids]
+        used = set()
+        for t in conj:
+            used |= _const_ids(t)
+        used |= _value_const_ids(elem)
+        hvars = [c for c in fresh if c.get_id() in used]
+        hids = {c.get_id() for c in hvars}
+        loop_part = [t for t in conj if not (_const_ids(t) & hids)]
+        hav_part = [t for t in conj if (_const_ids(t) & hids)]
+        cond = z3.And(*loop_part) if loop_part else z3.BoolVal(True)
+        cond_h = z3.And(*hav_part) if hav_part else z3.BoolVal(True)
         label = f"L{getattr(node, 'lineno', '?')}"
-        frames[0]["emits"].append((target, Site(label, bvars, cond, elem)))
+        frames[0]["emits"].append((target, Site(label, bvars, cond, elem, hvars, cond_h)))
+
+    def _unused(self):
+        pass
 
     def to_bag(self, content):
         if isinstance(content, CompBag):
@@ -1571,8 +1656,6 @@ class Interp:
                 except BreakSig:
                     break
             return
-        if rule is not None and rule.kind == "search":
-            return self.loop_search(target, it, body, env, node, label, rule)
         return self.loop_acc(target, it, body, env, node, label, child_env)
 
     def element_options(self, it, node):
@@ -1580,22 +1663,23 @@ class Interp:
         return self.externs.element_options(self, it, node)
 
     def loop_acc(self, target, it, body, env, node, label, child_env=True):
-        """R-acc: the body only accumulates into objects born outside the loop; executed once for an
-        arbitrary element.  Emits become comprehension sites of their targets."""
+        """R-acc (+ exits): the body is executed once for an arbitrary element.  Its only effects on
+        objects born outside the loop are accumulations (append / add / yield / +=), which become
+        comprehension sites of their targets, or leaving the function (return / raise), which
+        makes the loop a search: either no element exits, or some element does."""
         ctx = self.ctx
         frame = {"bvars": [], "pc_mark": len(ctx.pc), "emits": [], "label": label}
-        outermost = True
         ctx.acc_frames.append(frame)
-        all_emits = []
 
         def run():
             frame["bvars"] = []
             frame["emits"] = []
+            frame["fresh"] = []
             frame["pc_mark"] = len(ctx.pc)
             opts = self.element_options(it, node)
-            ci = ctx.choose([z3.BoolVal(True)] * len(opts), label or "") if len(opts) > 1 else 0
             if not opts:
                 raise PathAbort()
+            ci = ctx.choose([z3.BoolVal(True)] * len(opts), label or "") if len(opts) > 1 else 0
             bvars, cond, elem, _ = opts[ci]
             frame["bvars"] = list(bvars)
             ctx.assume(cond)
@@ -1609,17 +1693,68 @@ class Interp:
             except ContinueSig:
                 pass
             except BreakSig:
-                self.unsupported(node, "break inside an accumulation loop (needs an invariant or search rule)")
-            except ReturnSig:
-                self.unsupported(node, "return inside an accumulation loop: declare loop rule 'search'")
-            return list(frame["emits"])
+                self.unsupported(node, "break inside an accumulation loop (needs an invariant)")
+            except ReturnSig as r:
+                return ("return", list(frame["bvars"]), list(frame["emits"]), r.value)
+            except PyRaise as r:
+                return ("raise", list(frame["bvars"]), list(frame["emits"]), r)
+            return ("fall", list(frame["bvars"]), list(frame["emits"]), None)
         try:
             subs = explore_sub(ctx, run)
         finally:
             ctx.acc_frames.pop()
+        exits = []
         for delta, obl, res in subs:
-            for tgt, site in res:
+            kind, bvars, emits, val = res
+            if kind != "fall":
+                cond = z3.And(*[t for t, _ in delta]) if delta else z3.BoolVal(True)
+                exits.append((bvars, cond, kind, val))
+        if exits:
+            ex_forms = [z3.Exists(bv, c) if bv else c for bv, c, _, _ in exits]
+            none_exit = z3.Not(z3.Or(*ex_forms))
+            ch = ctx.choose([none_exit] + [z3.BoolVal(True)] * len(exits), f"exit@{label}")
+            if ch > 0:
+                bv, cond, kind, val = exits[ch - 1]
+                ctx.assume(cond)
+                if kind == "return":
+                    raise ReturnSig(val)
+                raise val
+        falls = [res for delta, obl, res in subs if res[0] == "fall"]
+        if not exits and len(falls) == 1 and self.try_ordered_map(it, falls[0], node):
+            return
+        for kind, bvars, emits, val in falls:
+            for tgt, site in emits:
                 self.apply_emit(tgt, site)
+
+    def try_ordered_map(self, it, fall, node):
+        """A loop over an ordered iterable whose body unconditionally appends exactly one element to each
+        target list is an ordered map: target becomes target ++ [elem(k) for k in range(n)]."""
+        ov = self.externs.ordered_view(self, it, node)
+        if ov is None:
+            return False
+        n, at = ov
+        kind, bvars, emits, val = fall
+        if len(bvars) != 1 or not emits:
+            return False
+        k = bvars[0]
+        tgts = {}
+        for tgt, site in emits:
+            if id(tgt) in tgts or not isinstance(tgt, VList) or site.bvars != [k]:
+                return False
+            if not isinstance(tgt.content, (ConcreteSeq, SymSeq)):
+                return False
+            # the site condition must be exactly the range condition of the loop variable
+            rng = z3.And(k >= 0, k < n) if not isinstance(it, self.externs.VRange) else z3.And(k >= it.lo, k < it.hi)
+            if not z3.eq(z3.simplify(site.cond), z3.simplify(rng)):
+                return False
+            tgts[id(tgt)] = (tgt, site)
+        for tgt, site in tgts.values():
+            base = 0 if not isinstance(it, self.externs.VRange) else it.lo
+            elem = site.elem
+            new = SymSeq(n, lambda j, elem=elem: vsubst(elem, [(k, j + base if not isinstance(base, int) else j)]))
+            tgt.content = self.seq_concat(tgt.content, new, node) if not (
+                isinstance(tgt.content, ConcreteSeq) and not tgt.content.items) else new
+        return True
 
     def apply_emit(self, tgt, site):
         if isinstance(tgt, VDict):
@@ -1630,8 +1765,8 @@ class Interp:
             s = site
             def pred(x, old=old, s=s):
                 s2 = s.rename(self.ctx)
-                body = z3.And(s2.cond, self.veq(s2.elem, x))
-                return z3.Or(old(x), z3.Exists(s2.bvars, body) if s2.bvars else body)
+                body = z3.And(s2.full_cond(), self.veq(s2.elem, x))
+                return z3.Or(old(x), z3.Exists(s2.all_vars(), body) if s2.all_vars() else body)
             tgt.pred = pred
             return
         bag = self.to_bag(tgt.content)
